@@ -23,6 +23,10 @@ struct Case {
     /// ground truth: (dependent, dependency, constructor context)
     edges: Vec<(String, String, String)>,
     shape: String,
+    /// second phase: a field is added that makes an existing type depend on another
+    /// existing type, and the project is regenerated over the previous output
+    #[serde(default)]
+    add_edge: Option<(String, String, Ty)>,
 }
 
 fn prim(r: &mut Rng) -> Ty {
@@ -222,12 +226,46 @@ impl Check for C09 {
             let k = r.below(nf as u64) as usize;
             files[k].items.push(it);
         }
+        // a new edge between two existing types (index order is a topological order, so
+        // "higher depends on lower" keeps the graph acyclic)
+        let mut add_edge = None;
+        if i % 3 == 1 {
+            let mut cands = vec![];
+            for a in 1..n {
+                for b in 0..a {
+                    if !is_enum[a] && !dag.iter().any(|e| e.0 == a && e.1 == b) {
+                        cands.push((a, b));
+                    }
+                }
+            }
+            if !cands.is_empty() {
+                let (a, b) = *r.pick(&cands);
+                let ty = context(r.below(20) as usize, Ty::Named(names[b].clone()), &mut r);
+                add_edge = Some((names[a].clone(), names[b].clone(), ty));
+            }
+        }
+        // type mappings whose keys are near-misses of project type names (generic
+        // instantiations having a project type as prefix): they must not touch anything
+        let mut cfg = Cfg::plain("zod");
+        if i % 4 == 2 {
+            for _ in 0..r.range(1, 2) {
+                let t = r.pick(&names).clone();
+                let key = match r.below(4) {
+                    0 => format!("{}Time<Utc>", t),
+                    1 => format!("{}<T>", t),
+                    2 => format!("{}s", t),
+                    _ => format!("Vec<{}X>", t),
+                };
+                cfg.mappings.insert(key, "string".into());
+            }
+            cfg.mappings.insert("DateTime<Utc>".into(), "string".into());
+        }
         let setups = [Setup::default_cli(), Setup { entry: Entry::Build, cwd: crate::world::Cwd::SrcTauri, ..Setup::default_cli() }];
         let setup = setups[(i % 7 == 0) as usize].clone();
         let s_runs = if tier == Tier::Thorough { 6 } else { 3 };
         let mut pr = r.split("procs");
         let procs = (0..s_runs).map(|_| gen_proc(&mut pr)).collect();
-        serde_json::to_value(Case { model: Model { files }, cfg: Cfg::plain("zod"), setup, procs, edges, shape: shape.into() }).unwrap()
+        serde_json::to_value(Case { model: Model { files }, cfg, setup, procs, edges, shape: shape.into(), add_edge }).unwrap()
     }
 
     fn exec(&self, env: &mut Env, case: &Value) -> CaseOut {
@@ -244,9 +282,33 @@ impl Check for C09 {
         // only edges that still exist in the (possibly shrunk) model
         let live_edges: BTreeSet<(String, String)> = c.model.type_edges();
         let mut orders: BTreeSet<String> = BTreeSet::new();
-        for (k, p) in c.procs.iter().enumerate() {
+        // phase 2 (optional): one more run after the edge-adding edit, over the previous output
+        let mut model2 = c.model.clone();
+        let mut phase2 = false;
+        if let Some((a, b, ty)) = &c.add_edge {
+            if let Some(s) = model2.struct_mut(a) {
+                if c.model.serde_type_names().contains(b) {
+                    s.fields.push(Field { name: "added_link_field".into(), ty: ty.clone(), public: true, rename: None, skip: false, validate: None });
+                    phase2 = true;
+                }
+            }
+        }
+        let mut run_specs: Vec<(ProcSpec, bool)> = c.procs.iter().map(|p| (p.clone(), false)).collect();
+        if phase2 && !c.procs.is_empty() {
+            let mut p = c.procs[0].clone();
+            p.hash_keys = [p.hash_keys[1] ^ 0x1234, p.hash_keys[0].rotate_left(9)];
+            run_specs.push((p, true));
+        }
+        let live_edges2: BTreeSet<(String, String)> = model2.type_edges();
+        for (k, (p, is_phase2)) in run_specs.iter().enumerate() {
             let out = w.out_dir(&c.setup);
-            let _ = std::fs::remove_dir_all(&out);
+            if *is_phase2 {
+                w.write_sources(&model2);
+                co.count("regenerations_over_previous_output_after_new_edge", 1);
+            } else {
+                let _ = std::fs::remove_dir_all(&out);
+            }
+            let live_edges = if *is_phase2 { &live_edges2 } else { &live_edges };
             let mut cfg = c.cfg.clone();
             let mut flag = false;
             match c.setup.entry {
@@ -299,6 +361,7 @@ impl Check for C09 {
                                     .iter()
                                     .find(|e| e.0 == base && e.1 == mb)
                                     .map(|e| e.2.clone())
+                                    .or_else(|| c.add_edge.as_ref().filter(|e| e.0 == base && e.1 == mb).map(|e| format!("added later: {}", e.2.context_label())))
                                     .unwrap_or_else(|| "param".into());
                                 let kind = if name.ends_with("ParamsSchema") { "param-before-type" } else { "use-before-def" };
                                 co.violate(
@@ -322,7 +385,7 @@ impl Check for C09 {
             }
             if k == 0 {
                 // reach: which ground-truth edges were rendered as a schema reference, and in which name orientation
-                for (u, v) in &live_edges {
+                for (u, v) in live_edges.iter() {
                     let rendered = seq.iter().any(|(n, refs)| n == &format!("{}Schema", u) && refs.contains(&format!("{}Schema", v)));
                     let ctx = c.edges.iter().find(|e| &e.0 == u && &e.1 == v).map(|e| e.2.clone()).unwrap_or_default();
                     if rendered {
